@@ -36,6 +36,7 @@ const (
 	yStatusConflict         // the status write may hit a conflict and be retried
 	yCacheLosesSet          // the set may leave the informer cache while the reconcile is in flight
 	ySelectorShapes         // the selector may be empty ({} matches every pod) or a DoesNotExist expression (C15)
+	ySelectorExpr           // the selector has matchLabels and a NotIn expression; a pod may satisfy the labels only
 )
 
 // sync monitor bits
@@ -158,6 +159,10 @@ func vBuildSync(N, R, K, opts int) *vSyncWorld {
 		}
 		set.Status.CurrentReplicas = sym.Int32("st.current")
 	}
+	if opts&ySelectorExpr != 0 {
+		set.Spec.Selector = &metav1.LabelSelector{MatchLabels: map[string]string{"app": "web"},
+			MatchExpressions: []metav1.LabelSelectorRequirement{{Key: "tier", Operator: metav1.LabelSelectorOpNotIn, Values: []string{"canary"}}}}
+	}
 	sw.upd = vRevision(set, "B", 2)
 	set.Status.UpdateRevision = sw.upd.Name
 	if opts&yUndefaulted == 0 || set.Status.CurrentRevision == "" {
@@ -174,6 +179,17 @@ func vBuildSync(N, R, K, opts int) *vSyncWorld {
 	}
 	w.apiRevs = append(w.apiRevs, sw.upd)
 	sw.revs = append(sw.revs, &vSyncRev{rev: sw.upd, owner: updOwner, labels: true})
+	if opts&ySelectorShapes != 0 && sym.Pick("numericHashRevision", 2) == 1 {
+		// any population of revisions: an older revision of the set whose hash label happens to be all digits
+		x := vRevision(set, "A", 1)
+		x.Name = vSetName + "-numeric"
+		x.UID = "uid-rev-numeric"
+		x.OwnerReferences = own
+		x.Labels["controller.kubernetes.io/hash"] = "12345"
+		w.apiRevs = append(w.apiRevs, x)
+		sw.revs = append(sw.revs, &vSyncRev{rev: x, labels: true})
+		sym.Cover("a revision with an all-digit hash label")
+	}
 	if opts&yRevDims != 0 {
 		// no history is kept, so that every revision the controller counts as unused history is deleted
 		zero := int32(0)
@@ -256,9 +272,18 @@ func vBuildSync(N, R, K, opts int) *vSyncWorld {
 			case 3:
 				pod.OwnerReferences = nil
 			}
-			if sym.Pick("labels", 2) == 1 {
+			nl := 2
+			if opts&ySelectorExpr != 0 {
+				nl = 3
+			}
+			switch sym.Pick("labels", nl) {
+			case 1:
 				pod.Labels["app"] = "other"
 				sp.match = false
+			case 2: // satisfies matchLabels, violates the expression
+				pod.Labels["tier"] = "canary"
+				sp.match = false
+				sym.Cover("a pod satisfies matchLabels but not the expression")
 			}
 			sp.shape = sym.Pick("shape", 3)
 			switch sp.shape {
